@@ -41,15 +41,24 @@ CHECKS = {
         "kernel-checked witness length_zero_extension64_counterexample, replayed on the implementation and listed as a known finding. Tie: model = implementation = reference fasthash64/murmur3 on all lengths 0..72 x alignments 0..7 "
         "with the buffer flush against ASan-poisoned memory, plus an implementation-only sensitivity oracle.",
    note="little-endian platform; 64-bit size_t; 'nothing outside the buffer is read' is runtime-checked (ASan poisoning), not a theorem.", ref="§5 C13"),
- "C03": dict(cat="translation_validation", tech="Lean 4 executable model (slot array, tombstones, rehash, callback log) validated white-box against the implementation per call under 5 hash families and 3 record layouts; termination/refinement theorems in progress",
-   text="Per call the status, record, size, the whole slot array, count, n_entries and the callback-argument log are compared with the model; churn generators hold the live count between the thresholds so that empty slots run out; "
-        "each call runs under a CPU watchdog. Side conditions on the regenerated constants are proved; probe termination, map refinement and callback-role theorems are being added.",
-   note="User equality is key identity; equal keys have equal codes (API contract).", ref="§5 C03"),
- "C06": dict(cat="translation_validation", tech="Lean 4 executable AVL model (node identity, stored balance factors, the C rotations) validated white-box against the implementation after every call; balance/refinement theorems in progress",
-   text="After every insert/find/remove/walk/free the whole shape (node id, key, balance factor, parent id), size and comparator-call count are compared with the model, under random/ascending/descending/zig-zag key orders, "
-        "duplicates on and off and positional removal targets; the harness checks iterator stability, destroy-once, callback user data and allocator balance on the implementation itself. Theorems (balanced, sorted-multiset refinement, "
-        "fib height bound, find ≤ height comparisons) are being added.",
-   note="Parent-pointer stepping (iter_next/prev) is compared through full walks, not modelled as pointer code.", ref="§5 C06"),
+ "C03": dict(cat="proof", tech="Lean 4 theorems (probe termination by induction on fuel; representation invariant preserved by insert/remove/rehash; find exactness; callback-role theorems) for an ARBITRARY hash function, plus white-box correspondence of slot array and callback log",
+   text="Proved for every table and every hash/key function: hash_probe_terminates / hash_plan_terminates (fuel = table size always suffices); with the invariant Inv (distinct keys, codes consistent, every live record reachable from its home slot without "
+        "crossing an empty slot, power-of-two size): find_some_iff / find_none_iff, insert_exists, insert_new (SUCCESS or NO_MEM with the table untouched), remove_absent, remove_present (also when shrinking fails), size_and_iteration, and find/insert callbacks only on stored "
+        "records, their keys and the probe key in the documented order. Side conditions on the regenerated constants by decide. Tie: per-call comparison of status, record, size, whole slot array and callback log under 5 hash families x 3 record layouts, churn generators, CPU watchdog.",
+   note="User equality is key identity; equal keys have equal codes (API contract). The per-operation theorems are not yet folded into one history-level refinement statement.", ref="§5 C03"),
+ "C06": dict(cat="proof", tech="Lean 4 theorems (AVL invariant with the C code's stored balance factors and rotation formulas, refinement to a sorted (multi)list with node identity, Fibonacci height bound) and white-box correspondence of the whole shape",
+   text="Proved: insert_dups / insert_nodups (balanced, sorted, in-order list = positional insertion after equal keys, EXISTS names the existing element, height growth flag exact), remove_spec (balanced, in-order list = old minus exactly that node: other nodes keep identity, key and order), "
+        "avl_height_bound (fib(h+2) <= size+1), find_spec (<= height comparisons; found iff stored), postorder_perm_inorder (free destroys each once), inv_new/inv_insert/inv_remove (invariant over every history). Tie: after every call the whole shape "
+        "(node id, key, balance, parent), size and comparator-call count are compared with the implementation; the harness checks iterator stability, destroy-once, callback user data, allocator balance.",
+   note="Parent-pointer stepping (iter_next/prev) is compared through full forward/backward walks, not modelled as pointer code.", ref="§5 C06"),
+ "C01": dict(cat="translation_validation", tech="Lean 4 executable B-tree model (pages with block ids, every restructuring case, allocation events) validated white-box against the implementation on five builds; refinement/height theorems in progress",
+   text="After every insert/remove/find/lower_bound/walk/clear the status, removed element, size and (white-box) the whole tree (page ids, values, children), allocation events, height and (NDEBUG builds) comparator-call count are compared with the model, "
+        "on page sizes 64/128/256 (MAX_HEIGHT 24) and 4096 (default), key orders random/ascending/descending/zig-zag/drain-to-minimum. Theorems (sorted-set refinement for insert and remove, WF invariant, height bound, O(log n) comparisons, clear) are being added.",
+   note="Known finding: small pages with the default maximum height exceed it (listed in known_findings.json).", ref="§5 C01"),
+ "C02": dict(cat="translation_validation", tech="Lean 4 executable model of iterator paths, lower_bound, increment, remove-next validated against the implementation with exhaustive probe sweeps; theorems in progress",
+   text="Every few operations the harness sweeps lower_bound over every key in/between/below/above the stored keys (exact comparator) and every prefix (wildcard comparator), iterator equality and a full walk; every remove reports its next; "
+        "the dereferenced element (API) and the index path per level (white-box) are compared with the model. Theorems (lower_bound = first not-less, increment walks in order, equality iff same position, remove-next = successor) are being added.",
+   note="Search comparator compatibility (monotone) is the API's contract.", ref="§5 C02"),
 }
 
 NOT_YET = "check not built yet in this revision (framework under construction; see DESIGN.md §8)"
